@@ -2,6 +2,8 @@
    store generates and the verdicts of the real verifiers against the model, run with the
    executable SHA-256 *)
 From V Require Export Base.Hex Merkle.Sha256 Proofs.History Proofs.Fixed.
+(* the _refuted witnesses of the known findings are re-checked whenever the model changes *)
+From V Require Import Proofs.Refuted.
 
 Definition Hs := sha256.
 Definition lbytes_eqb := list_eqb bytes_eqb.
@@ -15,6 +17,125 @@ Definition gen_linear_terms (hs : list txhdr) (i j : N) : list bytes :=
 
 Definition entry_of (t : option kvmd * bytes * bytes) : entry :=
   let '(md, k, hv) := t in {| e_md := opt_kvmd_bytes md; e_key := k; e_hval := hv |}.
+
+(* ---- alterations of a call, written as small edits of a base call (the case files stay small:
+   parsing a 32-byte literal costs more than evaluating the verifier on it) ---- *)
+Inductive hedit :=
+| HId (v : N) | HPrev (d : bytes) | HTs (v : N) | HVer (v : N) | HMd (m : option txmd)
+| HNe (v : N) | HEh (d : bytes) | HBl (v : N) | HRoot (d : bytes).
+
+Definition apply_hedit (h : txhdr) (e : hedit) : txhdr :=
+  let mk id prev ts ver md ne eh bl root :=
+    {| h_id := id; h_prevalh := prev; h_ts := ts; h_version := ver; h_md := md; h_nentries := ne;
+       h_eh := eh; h_bltxid := bl; h_blroot := root |} in
+  let id := h_id h in let prev := h_prevalh h in let ts := h_ts h in let ver := h_version h in
+  let md := h_md h in let ne := h_nentries h in let eh := h_eh h in let bl := h_bltxid h in
+  let root := h_blroot h in
+  match e with
+  | HId v => mk v prev ts ver md ne eh bl root
+  | HPrev d => mk id d ts ver md ne eh bl root
+  | HTs v => mk id prev v ver md ne eh bl root
+  | HVer v => mk id prev ts v md ne eh bl root
+  | HMd m => mk id prev ts ver m ne eh bl root
+  | HNe v => mk id prev ts ver md v eh bl root
+  | HEh d => mk id prev ts ver md ne d bl root
+  | HBl v => mk id prev ts ver md ne eh v root
+  | HRoot d => mk id prev ts ver md ne eh bl d
+  end.
+
+(* l[:keep] ++ ins ++ l[keep+del:] *)
+Definition splice {A} (keep del : N) (ins : list A) (l : list A) : list A :=
+  takeN keep l ++ ins ++ dropN (keep + del) l.
+
+Fixpoint update_nth {A} (n : nat) (f : A -> A) (l : list A) : list A :=
+  match l with
+  | [] => []
+  | x :: r => match n with O => f x :: r | S n' => x :: update_nth n' f r end
+  end.
+
+Inductive edit :=
+| ENil                                                (* the proof pointer is nil *)
+| EHdr (source : bool) (e : option (list hedit))      (* None: that header pointer is nil *)
+| EIncl (keep del : N) (ins : list bytes)
+| ECons (keep del : N) (ins : list bytes)
+| ELast (keep del : N) (ins : list bytes)
+| ETbl (d : bytes)
+| ELin (l : option linear_proof)                      (* wholesale *)
+| ELinIds (s t : N)
+| ELinTerms (keep del : N) (ins : list bytes)
+| ELap (l : option linear_advance_proof)              (* wholesale *)
+| ELapTerms (keep del : N) (ins : list bytes)
+| ELapIncl (idx keep del : N) (ins : list bytes)
+| ELapInclsTake (n : N)
+| EArgs (src tgt : N) (salh talh : option bytes).     (* None: unchanged *)
+
+Record dcall := { dc_p : option dual_proof; dc_src : N; dc_tgt : N; dc_salh : bytes; dc_talh : bytes }.
+
+Definition on_proof (c : dcall) (f : dual_proof -> dual_proof) : dcall :=
+  {| dc_p := option_map f (dc_p c); dc_src := dc_src c; dc_tgt := dc_tgt c;
+     dc_salh := dc_salh c; dc_talh := dc_talh c |}.
+
+Definition mkdp s t i c tb la li lp : dual_proof :=
+  {| dp_src := s; dp_tgt := t; dp_incl := i; dp_cons := c; dp_tblalh := tb; dp_last := la;
+     dp_lin := li; dp_lap := lp |}.
+
+Definition apply_edit (c : dcall) (e : edit) : dcall :=
+  match e with
+  | ENil => {| dc_p := None; dc_src := dc_src c; dc_tgt := dc_tgt c; dc_salh := dc_salh c; dc_talh := dc_talh c |}
+  | EHdr source he =>
+      let upd (h : option txhdr) : option txhdr :=
+        match he with
+        | None => None
+        | Some es => option_map (fun h => fold_left apply_hedit es h) h
+        end in
+      on_proof c (fun p =>
+        if source then mkdp (upd (dp_src p)) (dp_tgt p) (dp_incl p) (dp_cons p) (dp_tblalh p) (dp_last p) (dp_lin p) (dp_lap p)
+        else mkdp (dp_src p) (upd (dp_tgt p)) (dp_incl p) (dp_cons p) (dp_tblalh p) (dp_last p) (dp_lin p) (dp_lap p))
+  | EIncl k d ins => on_proof c (fun p =>
+      mkdp (dp_src p) (dp_tgt p) (splice k d ins (dp_incl p)) (dp_cons p) (dp_tblalh p) (dp_last p) (dp_lin p) (dp_lap p))
+  | ECons k d ins => on_proof c (fun p =>
+      mkdp (dp_src p) (dp_tgt p) (dp_incl p) (splice k d ins (dp_cons p)) (dp_tblalh p) (dp_last p) (dp_lin p) (dp_lap p))
+  | ELast k d ins => on_proof c (fun p =>
+      mkdp (dp_src p) (dp_tgt p) (dp_incl p) (dp_cons p) (dp_tblalh p) (splice k d ins (dp_last p)) (dp_lin p) (dp_lap p))
+  | ETbl x => on_proof c (fun p =>
+      mkdp (dp_src p) (dp_tgt p) (dp_incl p) (dp_cons p) x (dp_last p) (dp_lin p) (dp_lap p))
+  | ELin l => on_proof c (fun p =>
+      mkdp (dp_src p) (dp_tgt p) (dp_incl p) (dp_cons p) (dp_tblalh p) (dp_last p) l (dp_lap p))
+  | ELinIds s t => on_proof c (fun p =>
+      mkdp (dp_src p) (dp_tgt p) (dp_incl p) (dp_cons p) (dp_tblalh p) (dp_last p)
+           (option_map (fun l => {| lp_src := s; lp_tgt := t; lp_terms := lp_terms l |}) (dp_lin p)) (dp_lap p))
+  | ELinTerms k d ins => on_proof c (fun p =>
+      mkdp (dp_src p) (dp_tgt p) (dp_incl p) (dp_cons p) (dp_tblalh p) (dp_last p)
+           (option_map (fun l => {| lp_src := lp_src l; lp_tgt := lp_tgt l; lp_terms := splice k d ins (lp_terms l) |}) (dp_lin p))
+           (dp_lap p))
+  | ELap l => on_proof c (fun p =>
+      mkdp (dp_src p) (dp_tgt p) (dp_incl p) (dp_cons p) (dp_tblalh p) (dp_last p) (dp_lin p) l)
+  | ELapTerms k d ins => on_proof c (fun p =>
+      mkdp (dp_src p) (dp_tgt p) (dp_incl p) (dp_cons p) (dp_tblalh p) (dp_last p) (dp_lin p)
+           (option_map (fun l => {| lap_terms := splice k d ins (lap_terms l); lap_incls := lap_incls l |}) (dp_lap p)))
+  | ELapIncl idx k d ins => on_proof c (fun p =>
+      mkdp (dp_src p) (dp_tgt p) (dp_incl p) (dp_cons p) (dp_tblalh p) (dp_last p) (dp_lin p)
+           (option_map (fun l => {| lap_terms := lap_terms l;
+                                    lap_incls := update_nth (N.to_nat idx) (splice k d ins) (lap_incls l) |}) (dp_lap p)))
+  | ELapInclsTake n => on_proof c (fun p =>
+      mkdp (dp_src p) (dp_tgt p) (dp_incl p) (dp_cons p) (dp_tblalh p) (dp_last p) (dp_lin p)
+           (option_map (fun l => {| lap_terms := lap_terms l; lap_incls := takeN n (lap_incls l) |}) (dp_lap p)))
+  | EArgs s t sa ta =>
+      {| dc_p := dc_p c; dc_src := s; dc_tgt := t;
+         dc_salh := match sa with Some x => x | None => dc_salh c end;
+         dc_talh := match ta with Some x => x | None => dc_talh c end |}
+  end.
+
+Definition to_v2 (p : dual_proof) : dual_proof_v2 :=
+  {| d2_src := dp_src p; d2_tgt := dp_tgt p; d2_incl := dp_incl p; d2_cons := dp_cons p |}.
+
+Definition run_call (v2 : bool) (c : dcall) : res bool :=
+  if v2 then verify_dual_proof_v2 Hs (option_map to_v2 (dc_p c)) (dc_src c) (dc_tgt c) (dc_salh c) (dc_talh c)
+  else verify_dual_proof Hs (dc_p c) (dc_src c) (dc_tgt c) (dc_salh c) (dc_talh c).
+
+(* indices (within the group) of the variants on which model and implementation disagree *)
+Definition group_mismatches (v2 : bool) (base : dcall) (vs : list (list edit * res bool)) : list N :=
+  mismatches (fun v => res_eqb Bool.eqb (run_call v2 (fold_left apply_edit (fst v) base)) (snd v)) 0 vs.
 
 Inductive case :=
 (* TxHeader.Alh() (Panic when it panicked) *)
@@ -33,7 +154,11 @@ Inductive case :=
 | CVerLap (p : option linear_advance_proof) (s e : N) (ealh root : bytes) (size : N) (verdict : res bool)
 | CVerDual (p : option dual_proof) (src tgt : N) (salh talh : bytes) (verdict : res bool)
 | CVerDual2 (p : option dual_proof_v2) (src tgt : N) (salh talh : bytes) (verdict : res bool)
-| CVerEntry (p : option (Z * Z * list bytes)) (digest eh : bytes) (verdict : bool).
+| CVerEntry (p : option (Z * Z * list bytes)) (digest eh : bytes) (verdict : bool)
+(* a base call (VerifyDualProof, or VerifyDualProofV2 on the V2 projection of the proof when v2) and
+   alterations of it, each with the verdict of the Go verifier on the altered call *)
+| CDualGroup (v2 : bool) (p : dual_proof) (src tgt : N) (salh talh : bytes)
+             (variants : list (list edit * res bool)).
 
 Definition case_ok (c : case) : bool :=
   match c with
@@ -48,4 +173,9 @@ Definition case_ok (c : case) : bool :=
   | CVerDual p s t sa ta v => res_eqb Bool.eqb (verify_dual_proof Hs p s t sa ta) v
   | CVerDual2 p s t sa ta v => res_eqb Bool.eqb (verify_dual_proof_v2 Hs p s t sa ta) v
   | CVerEntry p d eh v => Bool.eqb (verify_entry_inclusion Hs p d eh) v
+  | CDualGroup v2 p s t sa ta vs =>
+      match group_mismatches v2 {| dc_p := Some p; dc_src := s; dc_tgt := t; dc_salh := sa; dc_talh := ta |} vs with
+      | [] => true
+      | _ => false
+      end
   end.
